@@ -28,6 +28,7 @@ def scenario_interp(ctx):
     it.construct_real |= {"feature.Feature", "*"}      # scenario mode: package classes are constructed for real (helper objects of a refactoring)
     it.lazy_generators = True                            # generators interleave with their consumers as in Python
     it.keep_generators = True
+    it.MAX_DEPTH = 60                                    # whole pipelines are evaluated: create_db -> ... -> bins
     return it
 
 
@@ -345,3 +346,54 @@ def make_creator(ctx, cls, db=None, lines=(), it=None, **kwargs):
         return it, ("raise", e.exc, e.msg), conn
     ctx.require(not it.pending, "%s(...) forks on concrete arguments" % cls)
     return it, me, conn
+
+
+# ------------------------------------------------------------------------------------------------ from text to database
+def text_interp(ctx):
+    """Scenario evaluator in which every package class is constructed for real: files are read by the package's own
+    iterators, lines parsed by its own parser, features built by Feature.__init__."""
+    it = scenario_interp(ctx)
+    it.construct_real |= {"*", "iterators._FileIterator", "iterators._FeatureIterator", "iterators._UrlIterator", "create._GFFDBCreator", "create._GTFDBCreator",
+                          "interface.FeatureDB", "feature.Feature", "iterators.Directive"}
+    it.summaries.pop("helpers._unjsonify", None)
+    from ..scenario import json_loads
+    it.summaries["helpers._unjsonify"] = lambda i, pos, kw, node: json_loads(i, pos[:1], {}, node)
+    it.MAX_TRACES = 64
+    return it
+
+
+def create_db_from_text(ctx, text, path="file.gff3", it=None, dbfn="db.sqlite", **kwargs):
+    """create.create_db(path, dbfn, **kwargs) evaluated end to end on a file of the in-memory file system holding `text`.
+    Returns (evaluator, model database, trace); the trace's result is the FeatureDB object create_db returns."""
+    from .. import minidb
+    it = it or text_interp(ctx)
+    db = minidb.MiniDB()
+    files = dict(getattr(it, "vfs", None) or {})
+    files[path] = [text]
+    conn = install(it, db, files=files)
+    it.ext_summaries["sqlite3.connect"] = lambda i, pos, kw, node: conn
+    f = require_func(ctx, "create.create_db")
+    try:
+        traces = it.run(f, dict(data=path, dbfn=dbfn, **kwargs), copy_args=False)
+    except Unsupported as e:
+        ctx.require(False, "create_db(%r) outside the analysable subset: %s" % (path, e))
+    ctx.require(len(traces) == 1, "create_db forks on a concrete file (%d paths): %s" % (len(traces), [repr(d[0])[:80] for t in traces[:2] for d in t.decisions[:3]]))
+    return it, db, traces[0]
+
+
+def printed(ctx, it, feature):
+    """str(feature), evaluated."""
+    f = require_func(ctx, "feature.Feature.__str__") if ctx.proj.maybe_func("feature.Feature.__str__") is not None else require_func(ctx, "feature.Feature.__unicode__")
+    try:
+        traces = it.run(f, {}, self_obj=feature, copy_args=False)
+    except Unsupported as e:
+        ctx.require(False, "str(Feature) outside the analysable subset: %s" % e)
+    ctx.require(len(traces) == 1, "str(Feature) forks on a concrete feature")
+    r = traces[0].result
+    if r[0] != "return":
+        return ("raise", r[1])
+    v = r[1]
+    from ..absint import AStr
+    if isinstance(v, AStr):
+        v = v.simplify()
+    return v
